@@ -272,7 +272,7 @@ func RunShared(r *verifmc.Run, im *Impl) {
 	if pp.C.Bits == 448 {
 		r.NotExhaustive("X448 non-canonical range p..2^448-1 has 2^224+1 values; its two ends (32 each) and all single-bit offsets are enumerated, not the range")
 	}
-	r.RequireCounter("pairs", 5000)
+	r.RequireCounter("pairs", 4000)
 	r.RequireCounter("flag_false", 50)
 	r.RequireCounter("reference_zero", 50)
 	r.RequireCounter("u_noncanonical", 200)
